@@ -60,8 +60,10 @@ def main(argv):
         tlc.cleanup()
     if ctx.violations:
         return 1
+    import time
+
     print(f"[{pid}] OK tier={tier} seed={seed} states={ctx.states} traces_validated={ctx.traces_validated} "
-          f"wall={ctx.write_evidence()['wall_s']}s")
+          f"wall={time.time() - ctx.t0:.1f}s" + (" (replay: evidence not rewritten)" if replay else ""))
     return 0
 
 
